@@ -1,5 +1,6 @@
 import Iec.Lemmas.Srv104
 import Iec.Lemmas.MsgQueue
+import Iec.Gen.Consts104
 /-
 C06 — Server event buffer: no loss, kept until acknowledged, resent after reconnect.
 
@@ -219,5 +220,13 @@ theorem create_inv (n : Nat) : MqInv (MsgQueue.create n) [] [] :=
 
 /-- non-vacuity: two enqueues into a fresh one-entry ring are kept in order with consecutive ids -/
 example : (((MsgQueue.create 1).enqueue [1, 1, 1]).enqueue [2, 2]).toList.map (·.id) = [1, 2] := by decide
+
+/-! ### the ring geometry of the model is the one the compiled source has (translator tie, regenerated on every run) -/
+
+/-- the entry header is `sizeof(struct sMessageQueueEntryInfo)` and the ring of an N-entry queue has the size
+`MessageQueue_create(N)` computes (checked at two N: the size is linear in N) -/
+theorem ring_geometry_matches_source :
+    HDR = Iec.Gen.mqEntryHeader ∧ (MsgQueue.create 1).size = Iec.Gen.mqSize1 ∧ (MsgQueue.create 7).size = Iec.Gen.mqSize7 := by
+  decide
 
 end Iec.Props.C06
